@@ -106,7 +106,15 @@ def tol(y, fam=None, inverse=False):
 
 
 def correspondence(ctx):
-    gen = torch.Generator().manual_seed(ctx.seed * 7919 + 9)
+    """thorough tier: several independent generator seeds (the quick tier runs one)"""
+    for rep in range(1 if ctx.quick() else 6):
+        _correspondence_once(ctx, rep)
+        if ctx.elapsed() > 1500:
+            break
+
+
+def _correspondence_once(ctx, rep=0):
+    gen = torch.Generator().manual_seed(ctx.seed * 7919 + 9 + 104729 * rep)
     reqs, metas = [], []
     for (fam, tails, K, regime, box, B, extra) in configs(ctx):
         cfg = S.defaults(fam, tails)
